@@ -1,29 +1,74 @@
 """C03 - level coupling keeps the coarse path in the previous level's law (telescoping).
 
-A real coupling object (CouplingMarkovChain / CouplingProcessLevyCopula / CouplingSDE) is taken to level l with the real
-next_level (real Product, real path managers). For every fine state x the coupling kernel u -> coarse state is driven through
-the coupling's own uniform seam and recovered exactly (partition recovery, <= 2^d pieces), giving P(x -> y).
+A real coupling object (CouplingMarkovChain / CouplingProcessLevyCopula / CouplingSDE) is taken to level l by the real
+next_level with a real Product and real path managers, along one of the HISTORIES the library itself performs between two
+refinements, then observed.
 
-Oracle
- (i)   telescoping: sum_x rate_l(x) P(x -> y) = rate_{l-1}(y) for every coarse state y, with rate_{l-1} from a chain built by
-       the public constructor on an INDEPENDENTLY constructed grid refined l-1 times, and the mass sent to "no coarse jump"
-       (y = origin) = sum rate_l - sum rate_{l-1};
- (ii)  even increments are copied unchanged (no uniform consumed, same value), odd ones go only to coarse states adjacent in
-       each odd coordinate (and unchanged in the even ones);
- (iii) coarse deterministic path at level l = deterministic path of the level l-1 chain; coarse diffusion coefficient (matrix)
-       = level l-1's; with scripted Brownian increments w both diffusion components are cumsum(coef sqrt(dt) w) for the same w;
- (iv)  CouplingSDE: mc_drift_2h = drift of the level l-1 driver chain, mc_drift_h = drift of the level-l driver chain;
- (v)   1-d path assembly with scripted jump counts, sampler uniforms and coupling uniforms (fixed dates and jump times): the
-       fine component equals the fine chain's path and the coarse component the reference sums of the kernel images - for every
-       sampling method the constructor accepts.
-Not covered: h below 0.05, dimension 3 beyond a 3-point grid, infinite-variation copula margins in the quick tier (their
- diffusion matrix needs a multi-dimensional quadrature of minutes).
+Sub-checks (one case = one configuration; `cases(tier)` is the complete list)
+ kernel1d / kernelnd   for every fine state x the coupling kernel u -> coarse state is driven through the coupling's own uniform
+       seam and recovered exactly (partition recovery, <= 2^d pieces), giving P(x -> y).
+       (i)   telescoping: sum_x rate_l(x) P(x -> y) = rate_{l-1}(y) for every coarse state y, rate_{l-1} from a chain built by
+             the public constructor on an INDEPENDENTLY constructed grid refined l-1 times, and the mass sent to "no coarse
+             jump" (y = origin) = sum rate_l - sum rate_{l-1}. Tolerance per coarse state: 1e-9 of the state's OWN rate plus
+             the rounding of the sums (see TOL_*), not a fraction of the total intensity;
+       (ii)  an even increment is copied unchanged (whatever number of uniforms the implementation draws), an odd one goes only
+             to coarse states adjacent in each odd coordinate (and unchanged in the even ones);
+       (iii) the path manager appended at EVERY level k <= l (re-read after the later refinements) carries the deterministic
+             path of the level-k chain (fine row) and of the level-(k-1) chain (coarse row), at t = 0, 0.3 and the maturity
+             (1.0 or 2.5); the coarse diffusion coefficient (1-d) / diffusion matrix (n-d) is level l-1's, the fine one
+             level l's;
+       (iv)  a few paths are simulated with every random source scripted and checked as in `assembly`.
+ assembly (dim 1 and 2)   simulate_one_path_with_coupling with every random source the library draws from replaced by
+       deterministic streams, several jumps per interval, 1 or 2 intervals. The fine chain's own output (the MarkovChain
+       returned by fine._path_simulation.simulate_markov_chain: increments, values, times per interval) is recorded, and
+       the coupled path is compared AT EVERY TIME of its own time grid (not only the terminal value):
+       fine row = running sums of the fine chain's values; coarse row = running sums of the kernel images K(increment, u) of
+       a FRESH twin coupling (u = the constant the coupling uniform is scripted to for that path, so no assumption on the
+       order or number of uniforms drawn is made; the coupling must draw at least one uniform per jump with an odd
+       coordinate); diffusion rows: coarse = (level l-1 coefficient / level l coefficient) x fine (n-d: M_{l-1} pinv(M_l)),
+       i.e. the same Brownian increments, coefficients taken from INDEPENDENT chains. All three simulation classes
+       (fixed dates, jump times, maximum step), every sampling method the constructor accepts.
+ sde   CouplingSDE (forward-market model with 1-d and 2-d driver, Libor model): mc_drift_2h / mc_drift_h = drift of the
+       level l-1 / l driver chain, and the driver coupling reached through CouplingSDE.next_level - that is through
+       next_level(path_managers=None, max_step_epsilon=...) - gets the kernel, coefficient and path checks above.
+
+Alphabets
+ models 1-d: HEM, CGMY 1.2 (infinite variation), VG, exp-CGMY 0.5 (+ Merton, exp-HEM thorough), each family once more through the
+       "reinit" construction route (mc.alphabets.with_reinit) with the reference always built directly;
+ grids 1-d: fixed n=5, uniform h=0.2, geometric with bounds, probability step, credit (+ geometric, fixed h=0.05 thorough);
+ copula models: Clayton (two parameter sets), independent, dependent, with finite-variation margins, and hem+cgmy12
+       (infinite-variation margin) - see ASSUMPTIONS for its diffusion matrix; grids n-d: fixed n=3 / n=5, credit (symmetric
+       and one threshold per name), uniform h=0.2, geometric, geometric with bounds; dimension 3 on the 3-point grid;
+ methods: all six 1-d methods; INVERSION and BINARYSEARCHTREEADAPTED for the copula coupling (the constructor raises
+       ValueError / TypeError for the others);
+ levels 1, 2 (3 thorough);
+ routes: next_level(path_managers=[...]) (the engine) and next_level(path_managers=None, max_step_epsilon=eps) (CouplingSDE);
+ simulation classes: FixedTimes (deterministic dates), WithJumpTimes (stochastic dates), MaximumStep (max_step_epsilon);
+ products: maturity 1.0 / 2.5, Spot underlying (one interval) and yearly Asian underlying (dates 0, 1.25, 2.5);
+ histories between two refinements: "plain" (nothing), "kernel" (the kernel of every state is used), "simulate"
+       (pre_computation, one path of the fine chain alone and one coupled path simulated on the same object:
+       Engine.price_with_constant_mc_paths_and_level), "engine" (reset_one_simulation_cost, pre_computation, paths simulated,
+       copy.deepcopy, next_level on the copy: Engine.price), "second-product" (the level-0 object first initialised, pre-computed
+       and simulated for ANOTHER product - the other kind of payoff dates, another maturity - then initialised for the case's
+       product: a second pricing with the same object); the reference chains and the twin coupling are built while the
+       observed object exists (a second object of the same class in between); a grid refined once by the caller before the
+       constructor (pre=1).
+ The auxiliary axes (method, history, simulation class, product) are ROTATED over the (model, grid, level, route) lattice, not
+ multiplied with it: every value of every axis occurs with every level and route, not with every model and grid.
+
+Outside the alphabet (statement silent or constructor refuses): CTMCGridProbabilityStep in dimension 2 (its constructor needs a
+ 1-d model: AttributeError); copula coupling with ALIAS / TABLE / BINARYSEARCHTREE / HUFFMANNTREE / BINARYSEARCHTREEADAPTED1D
+ (constructor raises); h below 0.05; dimension 3 beyond the 3-point grid; the Euler recursion of CouplingSDE itself (C16);
+ the law of the Brownian increments and of the jump times (C15); intensity = sum of the cell masses (C01: only counted here,
+ `oracle-rates-differ-from-intensity`).
 """
 from __future__ import annotations
 
+import contextlib
+import copy
 import itertools
 import math
-from collections import deque
+import os
 
 import numpy as np
 
@@ -35,16 +80,25 @@ from mc import oracle as O
 PID = "C03"
 LEVEL = "model_checking"
 RULE = (
-    "every (model, grid, sampling method, level) of the stated lattice: the kernel of every fine state is recovered exactly "
-    "and the telescoping identity is checked for every coarse state; states = fine states whose kernel was recovered, "
-    "transitions = kernel pieces (fine state -> coarse state with positive probability); non-trivial = at least one odd "
-    "increment was split between two coarse states"
+    "every (model, grid, sampling method, level, route, history, simulation class, product) of the stated list: the kernel of "
+    "every fine state is recovered exactly and the telescoping identity is checked for every coarse state; every scripted path "
+    "is compared at every time of its grid; states = fine states whose kernel was recovered, transitions = kernel pieces (fine "
+    "state -> coarse state with positive probability); non-trivial = at least one odd increment was split between two coarse "
+    "states (kernel) / at least one path had a jump with an odd coordinate (assembly)"
 )
 ASSUMPTIONS = [
     "rates are the chain's own model.mass on reference cells (checked against quadrature in C01)",
-    "the kernel is observed through the coupling's uniform seam (Uniform.sample replaced by a scripted value)",
+    "the kernel is observed through the coupling's uniform seam (Uniform.sample of the coupling's own Uniform object replaced by a "
+    "scripted value)",
+    "numpy.random.uniform / normal / poisson / random_sample / choice and random.getrandbits are replaced by deterministic "
+    "counter-based streams while a path is simulated",
+    "copula models with an infinite-variation margin (stub=true in the case): markovchainlevycopula.vol_adjustment_ij (a "
+    "multi-dimensional quadrature of minutes) is replaced by a cheap positive-definite function of (i, j, h) and the pathos pool "
+    "by a serial one, for the coupling AND for the reference chain: what is compared is which level's matrix the coupling keeps, "
+    "not the quadrature (the thorough tier also runs the real quadrature: stub=false)",
 ]
 CHUNK = 1
+DEBUG = bool(os.environ.get("C03_DEBUG"))
 
 HEM = {"family": "hem", "exp": False, "params": {}}
 HEMX = {"family": "hem", "exp": True, "params": {}, "r": 0.02, "d": 0.0, "spot": 100.0}
@@ -53,79 +107,329 @@ CG12 = {"family": "cgmy", "exp": False, "params": {"c": 1.0, "g": 15.0, "m": 20.
 CG05 = {"family": "cgmy", "exp": True, "params": {"c": 1.0, "g": 15.0, "m": 20.0, "y": 0.5}, "r": 0.02, "d": 0.0, "spot": 100.0}
 MER = {"family": "merton", "exp": False, "params": {}}
 
+METHODS_1D = ["INVERSION", "ALIAS", "BINARYSEARCHTREE", "HUFFMANNTREE", "TABLE", "BINARYSEARCHTREEADAPTED1D"]
+METHODS_ND = ["INVERSION", "BINARYSEARCHTREEADAPTED"]
+HISTORIES = ["plain", "kernel", "simulate", "engine", "second-product"]
+MODES = ["fixed", "jumptimes", "maxstep"]
+PRODUCTS = [
+    {"maturity": 1.0, "underlying": "spot"},
+    {"maturity": 2.5, "underlying": "asian"},
+    {"maturity": 2.5, "underlying": "spot"},
+]
+EPS = 0.4  # max_step_epsilon of the direct cases (below both maturities: the time grid is really refined)
+
+CM_HV = {"margins": ["hem", "vg"], "copula": {"kind": "clayton", "theta": 0.7, "eta": 0.3}}
+CM_CH = {"margins": ["cgmy05", "hem2"], "copula": {"kind": "clayton", "theta": 3.0, "eta": 1.0}}
+CM_IND = {"margins": ["hem", "hem2"], "copula": {"kind": "independent"}}
+CM_DEP = {"margins": ["hem", "vg"], "copula": {"kind": "dependent"}}
+CM_VC = {"margins": ["vg", "cgmy05"], "copula": {"kind": "clayton", "theta": 3.0, "eta": 0.0}}
+CM_IV = {"margins": ["hem", "cgmy12"], "copula": {"kind": "clayton", "theta": 0.7, "eta": 0.3}}
+CM_IV2 = {"margins": ["cgmy12", "hem"], "copula": {"kind": "clayton", "theta": 0.7, "eta": 0.3}}
+G_F3 = {"kind": "fixed", "h": 0.1, "n": 3}
+G_F5 = {"kind": "fixed", "h": 0.1, "n": 5}
+G_CR = {"kind": "credit", "h": 0.1, "a_frac": 0.5, "symmetric": True}
+G_CRA = {"kind": "credit", "h": 0.1, "a_frac": [0.4, 0.6], "symmetric": False}
+G_UNI = {"kind": "uniform", "h": 0.2, "p": 0.99999}
+G_GEOB = {"kind": "geometric-bounds", "h": 0.1, "bounds": [-0.7, 0.4], "n_side": 3}
+G_GEO = {"kind": "geometric", "h": 0.1, "n_side": 3, "p": 0.99999}
+
+
+def _aux(j, level, r, dim=1):
+    """The rotated auxiliary axes of case number j of a lattice (see the module docstring)."""
+    methods = METHODS_1D if dim == 1 else METHODS_ND
+    route = ("pm", "none")[r]
+    if route == "pm":
+        mode = MODES[(j + level) % 3]
+    else:
+        mode = ("maxstep", "maxstep", "fixed")[j % 3]
+    return {
+        "method": methods[(j + 2 * level + 3 * r) % len(methods)],
+        "route": route,
+        "history": HISTORIES[(j + level - 1 + r) % len(HISTORIES)],
+        "mode": mode,
+        "product": PRODUCTS[(j + level + r) % 3],
+    }
+
 
 def cases(tier):
     thorough = tier == "thorough"
     out = []
+    levels = (1, 2, 3) if thorough else (1, 2)
+    # ---------------------------------------------------------------- kernel1d
     models = [HEM, CG12, VG, CG05] + ([MER, HEMX] if thorough else [])
     grids = [
-        {"kind": "fixed", "h": 0.1, "n": 5},
-        {"kind": "uniform", "h": 0.2, "p": 0.99999},
-        {"kind": "geometric-bounds", "h": 0.1, "bounds": [-0.7, 0.4], "n_side": 3},
+        G_F5,
+        G_UNI,
+        G_GEOB,
         {"kind": "probability", "h": 0.1, "pmin": 0.2},
-        {"kind": "credit", "h": 0.1, "a_frac": 0.5, "symmetric": True},
+        G_CR,
     ] + ([{"kind": "geometric", "h": 0.1, "n_side": 4, "p": 0.99999}, {"kind": "fixed", "h": 0.05, "n": 8}] if thorough else [])
-    methods = ["INVERSION", "ALIAS", "BINARYSEARCHTREE", "HUFFMANNTREE", "TABLE", "BINARYSEARCHTREEADAPTED1D"]
+    j = 0
     for m in models:
         for g in grids:
-            for level in ((1, 2, 3) if thorough else (1, 2)):
+            if g["kind"] == "credit" and m["family"] == "vg":
+                g = dict(g, a_frac=0.8)  # half the left truncation of the VG model is above -h: not a threshold the grid accepts
+            for level in levels:
                 if g["kind"] == "probability" and level > 2:
                     continue
-                # the kernel does not depend on the sampling method: one method per (model, grid, level) for the kernel
-                # sub-checks, rotating through the methods so that each is used; the assembly sub-check runs them all
-                meth = methods[(len(out)) % len(methods)]
-                out.append({"sub": "kernel1d", "model": m, "grid": g, "level": level, "method": meth})
-    for m in (HEM, CG12) if not thorough else (HEM, CG12, VG):
-        for g in grids[:3]:
-            for meth in methods:
-                for mode in ("fixed", "jumptimes"):
-                    out.append({"sub": "assembly1d", "model": m, "grid": g, "level": 1, "method": meth, "mode": mode})
-    cms = [
-        {"margins": ["hem", "vg"], "copula": {"kind": "clayton", "theta": 0.7, "eta": 0.3}},
-        {"margins": ["cgmy05", "hem2"], "copula": {"kind": "clayton", "theta": 3.0, "eta": 1.0}},
-        {"margins": ["hem", "hem2"], "copula": {"kind": "independent"}},
-        {"margins": ["hem", "vg"], "copula": {"kind": "dependent"}},
-    ]
-    if thorough:
-        cms += [{"margins": ["vg", "cgmy05"], "copula": {"kind": "clayton", "theta": 3.0, "eta": 0.0}},
-                {"margins": ["hem", "cgmy12"], "copula": {"kind": "clayton", "theta": 0.7, "eta": 0.3}}]
-    grids2 = [
-        {"kind": "fixed", "h": 0.1, "n": 3},
-        {"kind": "fixed", "h": 0.1, "n": 5},
-        {"kind": "credit", "h": 0.1, "a_frac": 0.5, "symmetric": True},
-    ] + ([{"kind": "credit", "h": 0.1, "a_frac": [0.4, 0.6], "symmetric": False}] if thorough else [])
+                for r in (0, 1):
+                    out.append(dict({"sub": "kernel1d", "model": m, "grid": g, "level": level}, **_aux(j, level, r)))
+            j += 1
+    # the same parameter values reached through the calibration helpers' route (parameter object re-assigned, initialisation())
+    for m in A.with_reinit([HEM, CG12, VG] + ([CG05, MER] if thorough else [])):
+        if m.get("via") != "reinit":
+            continue
+        for level in (1, 2):
+            for r in (0, 1):
+                out.append(dict({"sub": "kernel1d", "model": m, "grid": G_F5, "level": level}, **_aux(j, level, r)))
+        j += 1
+    # a grid the caller has already refined once before handing it to the constructor
+    for m in (HEM, CG12):
+        for g in (grids[0], grids[2], grids[3]):
+            out.append(dict({"sub": "kernel1d", "model": m, "grid": g, "level": 1, "pre": 1}, **_aux(j, 1, j % 2)))
+            j += 1
+    # ---------------------------------------------------------------- assembly, dimension 1
+    j = 0
+    amodels = [HEM, CG12, dict(HEM, via="reinit")] + ([VG] if thorough else [])
+    for m in amodels:
+        for g in (grids[:3] if m.get("via") != "reinit" else grids[:1]):
+            for meth in METHODS_1D:
+                for mode in MODES:
+                    level = 1 + (j % 2) if not thorough else 1 + (j % 3)
+                    r = (j // 2) % 2
+                    out.append({"sub": "assembly", "dim": 1, "model": m, "grid": g, "level": level, "method": meth, "mode": mode,
+                                "route": ("pm", "none")[r], "history": HISTORIES[(j // 3) % len(HISTORIES)], "product": PRODUCTS[(j // 2) % 3]})
+                    j += 1
+    # ---------------------------------------------------------------- kernelnd
+    cms = [CM_HV, CM_CH, CM_IND, CM_DEP] + ([CM_VC] if thorough else [])
+    grids2 = [G_F3, G_F5, G_CR] + ([G_CRA] if thorough else [])
+    j = 0
+
+    def knd(cm, g, level, r, dim=2, stub=None):
+        c = dict({"sub": "kernelnd", "dim": dim, "model": cm, "grid": g, "level": level}, **_aux(j, level, r, dim))
+        if stub is not None:
+            c["stub"] = stub
+        return c
+
     # the only constructor that gives the coordinates different axes (one threshold per name): also in the quick tier
-    out.append({"sub": "kernelnd", "dim": 2, "model": cms[0], "grid": {"kind": "credit", "h": 0.1, "a_frac": [0.4, 0.6], "symmetric": False},
-                "level": 1, "method": "INVERSION"})
+    out.append(knd(CM_HV, G_CRA, 1, 0))
+    j += 1
     for cm in cms:
         for g in grids2:
-            for level in ((1, 2) if (thorough or g["kind"] == "fixed" and g["n"] == 3) else (1,)):
-                for meth in ("INVERSION",) if not thorough else ("INVERSION", "BINARYSEARCHTREEADAPTED"):
-                    out.append({"sub": "kernelnd", "dim": 2, "model": cm, "grid": g, "level": level, "method": meth})
-    cm3 = {"margins": ["hem", "vg", "cgmy05"], "copula": {"kind": "clayton", "theta": 0.7, "eta": 0.3}}
-    out.append({"sub": "kernelnd", "dim": 3, "model": cm3, "grid": {"kind": "fixed", "h": 0.1, "n": 3}, "level": 1, "method": "INVERSION"})
-    # SDE coupling
-    for drv in (HEM, CG12):
+            for level in ((1, 2) if (thorough or g is G_F3) else (1,)):
+                for r in ((0, 1) if thorough else ((j + level) % 2,)):
+                    out.append(knd(cm, g, level, r))
+            j += 1
+    # an infinite-variation margin (level-dependent diffusion matrix), both margin orders, both routes, both levels
+    for cm in (CM_IV, CM_IV2):
         for level in (1, 2):
-            out.append({"sub": "sde", "driver": drv, "grid": {"kind": "fixed", "h": 0.1, "n": 5}, "level": level})
+            for r in (0, 1):
+                out.append(knd(cm, G_F3, level, r, stub=True))
+        j += 1
+    out.append(knd(CM_IV, G_F5, 1, 0, stub=True))
+    j += 1
+    # the other n-d grid constructors
+    for g in (G_UNI, G_GEOB, G_GEO):
+        for level in ((1, 2) if thorough else (1,)):
+            out.append(knd(CM_HV, g, level, j % 2))
+        j += 1
+    out.append(dict(knd(CM_HV, G_F3, 1, 0), pre=1))
+    j += 1
+    cm3 = {"margins": ["hem", "vg", "cgmy05"], "copula": {"kind": "clayton", "theta": 0.7, "eta": 0.3}}
+    out.append(knd(cm3, G_F3, 1, 0, dim=3))
+    j += 1
+    if thorough:
+        # the real quadrature of the diffusion matrix
+        for level in (1, 2):
+            out.append(knd(CM_IV, G_F3, level, level % 2, stub=False))
+        j += 1
+    # ---------------------------------------------------------------- assembly, dimension 2
+    j = 0
+    for cm in [CM_HV, CM_CH, CM_IV] + ([CM_DEP, CM_IND] if thorough else []):
+        for g in ([G_F3] if not thorough else [G_F3, G_CRA]):
+            for meth in METHODS_ND:
+                for mode in MODES:
+                    for level in (1, 2):
+                        r = (j // 2) % 2
+                        c = {"sub": "assembly", "dim": 2, "model": cm, "grid": g, "level": level, "method": meth, "mode": mode,
+                             "route": ("pm", "none")[r], "history": HISTORIES[(j // 3) % len(HISTORIES)], "product": PRODUCTS[(j // 2) % 3]}
+                        if cm is CM_IV:
+                            c["stub"] = True
+                        out.append(c)
+                        j += 1
+    # ---------------------------------------------------------------- SDE coupling
+    j = 0
+    sde = [
+        {"sde": "forward", "dim": 1, "driver": HEM, "grid": G_F5},
+        {"sde": "forward", "dim": 1, "driver": CG12, "grid": G_F5},
+        {"sde": "libor", "dim": 1, "driver": HEM, "grid": G_UNI},
+        {"sde": "forward", "dim": 2, "driver": ["hem", "vg"], "grid": G_F3},
+        {"sde": "forward", "dim": 2, "driver": ["hem", "cgmy12"], "grid": G_F3, "stub": True},
+    ] + ([{"sde": "libor", "dim": 1, "driver": CG12, "grid": G_F5},
+          {"sde": "forward", "dim": 1, "driver": dict(HEM, via="reinit"), "grid": G_GEOB}] if thorough else [])
+    for s in sde:
+        for level in levels if s["dim"] == 1 else (1, 2):
+            methods = METHODS_1D if s["dim"] == 1 else METHODS_ND
+            out.append(dict(s, sub="sde", level=level, method=methods[(j + level) % len(methods)],
+                            history=("plain", "engine", "simulate")[(j + level) % 3]))
+        j += 1
     return out
 
 
 def check_case(sh, case):
-    {"kernel1d": _kernel1d, "kernelnd": _kernelnd, "assembly1d": _assembly1d, "sde": _sde}[case["sub"]](sh, case)
+    fn = {"kernel1d": _kernel, "kernelnd": _kernel, "assembly": _assembly, "sde": _sde}[case["sub"]]
+    try:
+        fn(sh, case)
+    except SeamMissing as e:
+        # a private name this harness reads has gone: nothing can be observed - not an alarm (refactorings are not defects),
+        # but the run is marked as not exhaustive
+        sh.cap(f"seam missing, {case['sub']} not observed: {e}")
+        sh.count("seam-missing")
 
 
 # ----------------------------------------------------------------------------------------------------------------------
+# seams, scripted randomness, stubs
+# ----------------------------------------------------------------------------------------------------------------------
 
-def make_product(maturity=1.0, stochastic=False):
+class SeamMissing(Exception):
+    pass
+
+
+def _attr(obj, *names):
+    for n in names:
+        if hasattr(obj, n):
+            return getattr(obj, n)
+    raise SeamMissing(f"{type(obj).__name__}.{'/'.join(names)}")
+
+
+GOLD = 0.6180339887498949
+PLASTIC = 0.7548776662466927
+
+
+class Streams:
+    """Deterministic replacements of every random source the simulation draws from (counter based, never 0 or 1)."""
+
+    def __init__(self, counts=(2, 0, 3, 1, 4, 1, 2)):
+        self.k = {"u": 0, "n": 0, "p": 0, "r": 0}
+        self.counts = list(counts)
+
+    def _frac(self, which, start, step):
+        k = self.k[which]
+        self.k[which] = k + 1
+        x = (start + k * step) % 1.0
+        return min(max(x, 1e-9), 1.0 - 1e-9)
+
+    def uniform(self, low=0.0, high=1.0, size=None):
+        n = 1 if size is None else int(np.prod(size))
+        vals = np.array([self._frac("u", 0.137, GOLD) for _ in range(n)], dtype=float) * (high - low) + low
+        return float(vals[0]) if size is None else vals.reshape(size)
+
+    def normal(self, loc=0.0, scale=1.0, size=None):
+        n = 1 if size is None else int(np.prod(size))
+        vals = np.array([2.0 * self._frac("n", 0.31, PLASTIC) - 1.0 for _ in range(n)], dtype=float) * scale + loc
+        return float(vals[0]) if size is None else vals.reshape(size)
+
+    def poisson(self, lam=1.0, size=None):
+        n = 1 if size is None else int(np.prod(size))
+        vals = []
+        for _ in range(n):
+            vals.append(self.counts[self.k["p"] % len(self.counts)])
+            self.k["p"] += 1
+        return int(vals[0]) if size is None else np.array(vals, dtype=int).reshape(size)
+
+    def random_sample(self, size=None):
+        n = 1 if size is None else int(np.prod(size))
+        vals = np.array([self._frac("r", 0.071, GOLD) for _ in range(n)], dtype=float)
+        return float(vals[0]) if size is None else vals.reshape(size)
+
+    def getrandbits(self, nb):
+        return min(int(self._frac("u", 0.137, GOLD) * 2.0 ** nb), 2 ** nb - 1)
+
+    @staticmethod
+    def choice(a, *args, **kw):
+        return list(a)[0] if not isinstance(a, (int, np.integer)) else 0
+
+
+@contextlib.contextmanager
+def scripted_env(counts=(2, 0, 3, 1, 4, 1, 2)):
+    import random
+
+    import numpy.random as npr
+
+    st = Streams(counts)
+    saved = (npr.uniform, npr.normal, npr.poisson, npr.random_sample, npr.choice, random.getrandbits)
+    npr.uniform, npr.normal, npr.poisson, npr.random_sample, npr.choice = st.uniform, st.normal, st.poisson, st.random_sample, st.choice
+    random.getrandbits = st.getrandbits
+    try:
+        yield st
+    finally:
+        npr.uniform, npr.normal, npr.poisson, npr.random_sample, npr.choice, random.getrandbits = saved
+
+
+def _vol_stub(i, j, h, levy_model):
+    """Stand-in of vol_adjustment_ij: level dependent (through h), symmetric, positive definite."""
+    return h * h * (2.0 + i) if i == j else 0.5 * h * h
+
+
+class _SerialPool:
+    def __init__(self, *a, **k):
+        pass
+
+    def __enter__(self):
+        return self
+
+    def __exit__(self, *a):
+        return False
+
+    class _Res:
+        def __init__(self, v):
+            self.v = v
+
+        def get(self, *a, **k):
+            return self.v
+
+    def apply_async(self, fn, args=(), kwds=None):
+        return self._Res(fn(*args, **(kwds or {})))
+
+
+class _SerialMP:
+    Pool = _SerialPool
+
+
+@contextlib.contextmanager
+def nd_diffusion_stub(active):
+    if not active:
+        yield
+        return
+    import rpylib.process.markovchain.markovchainlevycopula as M
+
+    saved = (M.vol_adjustment_ij, M.mp)
+    M.vol_adjustment_ij, M.mp = _vol_stub, _SerialMP
+    try:
+        yield
+    finally:
+        M.vol_adjustment_ij, M.mp = saved
+
+
+# ----------------------------------------------------------------------------------------------------------------------
+# products, path managers, reference chains
+# ----------------------------------------------------------------------------------------------------------------------
+
+def make_product(maturity=1.0, stochastic=False, underlying="spot"):
     from rpylib.product.payoff import Forward, PayoffDates
     from rpylib.product.product import Product
-    from rpylib.product.underlying import Spot
+    from rpylib.product.underlying import Asian, Discretisation, Spot
 
     payoff = Forward(strike=0.0)
     if stochastic:
         payoff.payoff_dates_type = PayoffDates.STOCHASTIC
-    return Product(payoff_underlying=Spot(), payoff=payoff, maturity=maturity)
+    und = Spot() if underlying == "spot" else Asian(discretisation=Discretisation.YEARLY)
+    return Product(payoff_underlying=und, payoff=payoff, maturity=maturity)
+
+
+def product_of(case):
+    p = case.get("product", PRODUCTS[0])
+    return make_product(maturity=p["maturity"], stochastic=(case.get("mode") == "jumptimes"), underlying=p["underlying"])
 
 
 def path_manager(fine_process):
@@ -134,484 +438,740 @@ def path_manager(fine_process):
     return MLMCPath(deterministic_path=fine_process.deterministic_path, activate_spot_underlying=False)
 
 
-def rates_1d(proc, grid):
-    axis = grid.axes[0]
-    o = grid.origin_coordinate.value
-    cells, _ = O.ref_cells(axis, o, middle=grid.middle)
-    out = {}
-    for k, cell in enumerate(cells):
-        if cell is not None:
-            out[float(axis[k])] = max(float(proc.model.mass(float(cell[0]), float(cell[1]))), 0.0)
-    return out
+def direct(spec):
+    """The model spec without its construction route: references are always built directly."""
+    if isinstance(spec, dict) and "via" in spec:
+        return {k: v for k, v in spec.items() if k != "via"}
+    return spec
 
 
-def rates_nd(proc, grid):
-    orig = list(grid.origin_coordinate)
-    per_axis = []
-    for k, axis in enumerate(grid.axes):
-        cells, central = O.ref_cells(axis, orig[k], middle=None)
-        per_axis.append([c if c is not None else central for c in cells])
-    out = {}
-    for idx in itertools.product(*[range(len(ax)) for ax in grid.axes]):
-        if all(i == o for i, o in zip(idx, orig)):
-            continue
-        a = tuple(float(per_axis[k][i][0]) for k, i in enumerate(idx))
-        b = tuple(float(per_axis[k][i][1]) for k, i in enumerate(idx))
-        out[tuple(float(grid.axes[k][i]) for k, i in enumerate(idx))] = max(float(proc.model.mass(a, b)), 0.0)
-    return out
+class Dim1:
+    dim = 1
+
+    @staticmethod
+    def model(spec):
+        return A.make_model(spec)
+
+    @staticmethod
+    def coupling(model, grid, method):
+        from rpylib.process.coupling.couplingmarkovchain import CouplingMarkovChain
+
+        return CouplingMarkovChain(model=model, method=method, grid=grid)
+
+    @staticmethod
+    def chain(model, grid, method):
+        from rpylib.process.markovchain.markovchain import MarkovChainProcess
+
+        return MarkovChainProcess(model=model, method=method, grid=grid)
+
+    @staticmethod
+    def states(grid):
+        """[(increment, value)] of every state but the origin; increments are ints, values floats."""
+        axis, o = grid.axes[0], grid.origin_coordinate.value
+        return [(k - o, float(axis[k])) for k in range(len(axis)) if k != o]
+
+    @staticmethod
+    def value_of(grid, inc):
+        return float(grid.axes[0][grid.origin_coordinate.value + int(inc)])
+
+    @staticmethod
+    def kernel_fn(cp):
+        sim = _attr(cp, "_path_coupling_simulation")
+        f = _attr(sim, "coupling_state")
+        return lambda inc: float(f(int(inc)))
+
+    @staticmethod
+    def uniform_of(cp):
+        return _attr(cp, "uniform", "_uniform")
+
+    @staticmethod
+    def rates(proc, grid):
+        axis = grid.axes[0]
+        o = grid.origin_coordinate.value
+        cells, _ = O.ref_cells(axis, o, middle=grid.middle)
+        out, neg = {}, 0.0
+        for k, cell in enumerate(cells):
+            if cell is not None:
+                m = float(proc.model.mass(float(cell[0]), float(cell[1])))
+                neg = min(neg, m)
+                out[float(axis[k])] = max(m, 0.0)
+        return out, neg
+
+    @staticmethod
+    def coefficients(cp):
+        return (np.atleast_2d(float(_attr(cp, "equivalent_diffusion_coefficient_fine"))),
+                np.atleast_2d(float(_attr(cp, "equivalent_diffusion_coefficient_coarse"))))
+
+    @staticmethod
+    def chain_coefficient(chain):
+        return np.atleast_2d(float(_attr(chain, "equivalent_diffusion_coefficient")))
+
+    @staticmethod
+    def key(v):
+        return float(v)
+
+    zero = 0.0
 
 
-def build_coupling_1d(case, product):
+class DimN:
+    def __init__(self, dim):
+        self.dim = dim
+        self.zero = tuple([0.0] * dim)
+
+    @staticmethod
+    def model(spec):
+        return A.make_copula_model(spec)
+
+    @staticmethod
+    def coupling(model, grid, method):
+        from rpylib.process.coupling.couplinglevycopula import CouplingProcessLevyCopula
+
+        return CouplingProcessLevyCopula(levy_copula_model=model, grid=grid, method=method)
+
+    @staticmethod
+    def chain(model, grid, method):
+        from rpylib.process.markovchain.markovchainlevycopula import MarkovChainLevyCopula
+
+        return MarkovChainLevyCopula(levy_copula_model=model, grid=grid, method=method)
+
+    @staticmethod
+    def states(grid):
+        orig = list(grid.origin_coordinate)
+        out = []
+        for idx in itertools.product(*[range(len(ax)) for ax in grid.axes]):
+            inc = tuple(i - o for i, o in zip(idx, orig))
+            if any(inc):
+                out.append((inc, tuple(float(grid.axes[k][i]) for k, i in enumerate(idx))))
+        return out
+
+    @staticmethod
+    def value_of(grid, inc):
+        orig = list(grid.origin_coordinate)
+        return tuple(float(grid.axes[k][orig[k] + int(i)]) for k, i in enumerate(inc))
+
+    @staticmethod
+    def kernel_fn(cp):
+        sim = _attr(cp, "_path_coupling_simulation")
+        # the route the simulation itself takes: the coarse values of a slice of one jump (starting from the origin)
+        slice_fn = getattr(sim, "_coupling_states_for_a_slice", None)
+        if slice_fn is not None:
+            return lambda inc: tuple(float(v) for v in np.asarray(slice_fn([tuple(int(i) for i in inc)])[0]).ravel())
+        f = _attr(sim, "_CouplingLevyCopulaSimulation__coupling_state", "coupling_state")
+        return lambda inc: tuple(float(v) for v in np.asarray(f(tuple(int(i) for i in inc))).ravel())
+
+    @staticmethod
+    def uniform_of(cp):
+        return _attr(cp, "_uniform", "uniform")
+
+    @staticmethod
+    def rates(proc, grid):
+        orig = list(grid.origin_coordinate)
+        per_axis = []
+        for k, axis in enumerate(grid.axes):
+            cells, central = O.ref_cells(axis, orig[k], middle=None)
+            per_axis.append([c if c is not None else central for c in cells])
+        out, neg = {}, 0.0
+        for idx in itertools.product(*[range(len(ax)) for ax in grid.axes]):
+            if all(i == o for i, o in zip(idx, orig)):
+                continue
+            a = tuple(float(per_axis[k][i][0]) for k, i in enumerate(idx))
+            b = tuple(float(per_axis[k][i][1]) for k, i in enumerate(idx))
+            m = float(proc.model.mass(a, b))
+            neg = min(neg, m)
+            out[tuple(float(grid.axes[k][i]) for k, i in enumerate(idx))] = max(m, 0.0)
+        return out, neg
+
+    @staticmethod
+    def coefficients(cp):
+        return (np.asarray(_attr(cp, "_diffusion_matrix_h"), dtype=float), np.asarray(_attr(cp, "_diffusion_matrix_2h"), dtype=float))
+
+    @staticmethod
+    def chain_coefficient(chain):
+        return np.asarray(_attr(_attr(chain, "_path_simulation"), "diffusion_matrix"), dtype=float)
+
+    @staticmethod
+    def key(v):
+        return tuple(float(x) for x in np.asarray(v).ravel())
+
+
+def dim_of(case):
+    d = case.get("dim", 1)
+    return Dim1 if d == 1 else DimN(d)
+
+
+def spec_of(case):
+    return {"model": case["model"], "grid": case["grid"], "method": case["method"], "dim": case.get("dim", 1), "pre": case.get("pre", 0)}
+
+
+def ref_chain(D, spec, refine, product):
+    """Chain of the level `refine` built by the public constructor on an independently constructed grid."""
     from rpylib.distribution.sampling import SamplingMethod
-    from rpylib.process.coupling.couplingmarkovchain import CouplingMarkovChain
 
-    model = A.make_model(case["model"])
-    grid = A.make_grid(dict(case["grid"], refine=0), model, 1)
-    cp = CouplingMarkovChain(model=model, method=SamplingMethod[case["method"]], grid=grid)
-    product.update(cp.fine_process.process_representation)
-    cp.initialisation(product)
-    pms = [path_manager(cp.fine_process)]
-    for l in range(case["level"]):
-        cp.next_level(mc_paths=1, path_managers=pms, product=product)
-        if l + 1 < case["level"]:
-            exercise_kernel_1d(cp)
-    return cp, pms, model
+    model = D.model(direct(spec["model"]))
+    grid = A.make_grid(dict(spec["grid"], refine=refine + spec.get("pre", 0)), model, D.dim)
+    chain = D.chain(model, grid, SamplingMethod[spec["method"]])
+    product.update(chain.process_representation)
+    chain.initialisation(product)
+    return chain, grid
 
 
-def exercise_kernel_1d(cp):
-    """The multilevel engine refines a coupling object that has already simulated at the previous level (it deep-copies the
-    level l-1 process and calls next_level on the copy): use the kernel of every fine state at the intermediate level before
-    the next refinement, so that anything the object memoises at level l-1 is in place when level l is observed."""
-    sim = cp._path_coupling_simulation
-    axis = cp.grid.axes[0]
-    o = cp.grid.origin_coordinate.value
-    uni = cp.uniform
+# ----------------------------------------------------------------------------------------------------------------------
+# histories
+# ----------------------------------------------------------------------------------------------------------------------
+
+def exercise_kernel(D, cp):
+    """Use the kernel of every fine state at the intermediate level before the next refinement, so that anything the object
+    memoises at level l-1 is in place when level l is observed."""
+    kernel = D.kernel_fn(cp)
+    uni = D.uniform_of(cp)
     orig = uni.sample
     try:
         for u in (0.3, 0.7):
-            uni.sample = lambda size=1, u=u: np.array([u])
-            for k in range(len(axis)):
-                if k != o:
-                    sim.coupling_state(k - o)
+            uni.sample = lambda size=1, u=u: np.full(size, u)
+            for inc, _ in D.states(cp.grid):
+                try:
+                    kernel(inc)
+                except SeamMissing:
+                    raise
+                except Exception:  # noqa - zero-rate n-d states may refuse any uniform (measured where the kernel is judged)
+                    pass
     finally:
         uni.sample = orig
 
 
-def _kernel1d(sh, case):
+def take_to_level(sh, D, case, product, cls, sub, nsim=2):
+    """Coupling object of the case at its level, reached along the case's history and route. -> (cp, pms or None)"""
     from rpylib.distribution.sampling import SamplingMethod
-    from rpylib.process.markovchain.markovchain import MarkovChainProcess
 
-    gk, mk = case["grid"]["kind"], case["model"]["family"]
-    cls = f"{gk}:{mk}"
-    product = make_product()
-    try:
-        cp, pms, model = build_coupling_1d(case, product)
-    except A.OutsideAlphabet:
-        sh.count("outside-alphabet-grid")
-        return
-    level = case["level"]
-    sim = cp._path_coupling_simulation
-    grid_f = cp.grid
-    fine = cp.fine_process
-    # independent coarse chain
-    model_c = A.make_model(case["model"])
-    grid_c = A.make_grid(dict(case["grid"], refine=level - 1), model_c, 1)
-    chain_c = MarkovChainProcess(model=model_c, method=SamplingMethod[case["method"]], grid=grid_c)
-    product_c = make_product()
-    product_c.update(chain_c.process_representation)
-    chain_c.initialisation(product_c)
-    rf = rates_1d(fine, grid_f)
-    rc = rates_1d(chain_c, grid_c)
-    lam_f, lam_c = sum(rf.values()), sum(rc.values())
-    axis = grid_f.axes[0]
-    o = grid_f.origin_coordinate.value
-    coarse_vals = set(float(v) for v in grid_c.axes[0])
-    acc = {}
-    split = 0
-    uni = cp.uniform
-    orig_sample = uni.sample
-    try:
-        for k in range(len(axis)):
-            inc = k - o
-            if inc == 0:
-                continue
-            x = float(axis[k])
-            used = {"n": 0}
-
-            def f(u, inc=inc):
-                def s(size=1):
-                    used["n"] += 1
-                    return np.array([u]) if size == 1 else np.full(size, u)
-
-                uni.sample = s
-                return float(sim.coupling_state(inc))
-
-            pieces, ev, hi = C2.recover_partition(f, 64)
-            sh.count("evaluations", ev)
-            L = C2.lengths(pieces, hi)
-            sh.states += 1
-            sh.transitions += len(L)
-            if inc % 2 == 0:
-                if used["n"] or list(L) != [x]:
-                    sh.violation(f"C03:kernel1d:even-increment-not-copied:{cls}",
-                                 f"level {level}: fine increment {inc} (value {x}) -> {L} (uniforms consumed {used['n']})", None)
-            else:
-                left, right = float(axis[k - 1]), float(axis[k + 1])
-                if set(L) - {left, right}:
-                    sh.violation(f"C03:kernel1d:odd-increment-moved-to-non-adjacent-coarse-state:{cls}",
-                                 f"level {level}: fine increment {inc} (value {x}) -> {sorted(L)}; coarse neighbours {left}, {right}", None)
-                if len(L) == 2:
-                    split += 1
-                # the kernel must be monotone in u: small u -> right state (as coded) is not required; only the law matters
-            for y, p in L.items():
-                if y not in coarse_vals:
-                    sh.violation(f"C03:kernel1d:coarse-value-not-on-the-coarse-grid:{cls}", f"level {level}: increment {inc} -> {y}", None)
-                acc[y] = acc.get(y, 0.0) + rf[x] * p
-    finally:
-        uni.sample = orig_sample
-    # (i) telescoping
-    tol = 1e-9 * lam_f + 1e-300
-    for y, r in rc.items():
-        got = acc.get(y, 0.0)
-        if abs(got - r) > tol:
-            pos = "boundary-state" if y in (float(grid_c.axes[0][0]), float(grid_c.axes[0][-1])) else "interior-state"
-            sh.violation(f"C03:kernel1d:coarse-rate-not-reproduced:{pos}:{cls}",
-                         f"level {level}: coarse state {y}: sum_x rate(x) P(x->y) = {got!r} but the level-{level - 1} chain has rate {r!r}",
-                         {"lam_f": lam_f, "lam_c": lam_c})
-    nj = acc.get(0.0, 0.0)
-    if abs(nj - (lam_f - lam_c)) > tol:
-        sh.violation(f"C03:kernel1d:no-coarse-jump-mass-differs:{cls}",
-                     f"level {level}: mass sent to the coarse origin {nj!r} but lambda_l - lambda_(l-1) = {lam_f - lam_c!r}", None)
-    if not core.close(float(fine.intensity_of_jumps), lam_f, rtol=1e-9) or not core.close(float(chain_c.intensity_of_jumps), lam_c, rtol=1e-9):
-        sh.violation(f"C03:kernel1d:intensity-differs-from-sum-of-rates:{cls}",
-                     f"fine {fine.intensity_of_jumps!r} vs {lam_f!r}; coarse {chain_c.intensity_of_jumps!r} vs {lam_c!r}", None)
-    # (iii) deterministic path and diffusion
-    times = np.array([0.0, 0.3, 1.0])
-    dp = np.asarray(pms[-1].deterministic_path(times), dtype=float)
-    want_c = np.asarray(chain_c.deterministic_path(times), dtype=float)
-    want_f = np.asarray(fine.deterministic_path(times), dtype=float)
-    scale = max(1.0, float(np.max(np.abs(want_c))))
-    if dp.shape[0] != 2 or not np.allclose(dp[1], want_c, rtol=1e-11, atol=1e-12 * scale):
-        sh.violation(f"C03:kernel1d:coarse-deterministic-path-not-level-minus-one:{cls}",
-                     f"level {level}: coarse path {dp[1].tolist() if dp.shape[0] == 2 else dp.tolist()} vs level-{level - 1} chain {want_c.tolist()}", None)
-    if dp.shape[0] == 2 and not np.allclose(dp[0], want_f, rtol=1e-11, atol=1e-12 * scale):
-        sh.violation(f"C03:kernel1d:fine-deterministic-path-differs:{cls}", f"{dp[0].tolist()} vs {want_f.tolist()}", None)
-    ec = float(cp.equivalent_diffusion_coefficient_coarse)
-    ef = float(cp.equivalent_diffusion_coefficient_fine)
-    if not core.close(ec, float(chain_c.equivalent_diffusion_coefficient), rtol=1e-11, atol=1e-15):
-        sh.violation(f"C03:kernel1d:coarse-diffusion-coefficient-not-level-minus-one:{cls}",
-                     f"level {level}: {ec!r} vs level-{level - 1} chain {float(chain_c.equivalent_diffusion_coefficient)!r}", None)
-    if not core.close(ef, float(fine.equivalent_diffusion_coefficient), rtol=1e-11, atol=1e-15):
-        sh.violation(f"C03:kernel1d:fine-diffusion-coefficient-differs:{cls}", f"{ef!r} vs {float(fine.equivalent_diffusion_coefficient)!r}", None)
-    # same Brownian increments
-    w = np.array([0.7])
-    bq = getattr(fine._path_simulation, "_brownian_increments", None)
-    if bq is not None:
-        bq.clear()
-        bq.append(w.copy())
-        sq = np.array([1.0])
-        dh, d2h = sim.simulate_diffusion_with_coupling(sq)
-        if not (np.allclose(dh, np.cumsum(ef * sq * w), rtol=1e-12) and np.allclose(d2h, np.cumsum(ec * sq * w), rtol=1e-12)):
-            sh.violation(f"C03:kernel1d:diffusion-components-not-driven-by-the-same-increments:{cls}",
-                         f"w={w.tolist()}: fine {np.asarray(dh).tolist()} coarse {np.asarray(d2h).tolist()} coefficients {ef}, {ec}", None)
-    sh.outcome((cls, level, len(rf), split, round(lam_f, 9)))
-    if split:
-        sh.nontriv()
-    if gk == "fixed" and mk == "hem" and level == 1:
-        sh.sample({"sub": "kernel1d", "case": case, "fine_rates": rf, "coarse_rates": rc, "telescoped": acc})
-
-
-def _kernelnd(sh, case):
-    from rpylib.distribution.sampling import SamplingMethod
-    from rpylib.process.coupling.couplinglevycopula import CouplingProcessLevyCopula
-    from rpylib.process.markovchain.markovchainlevycopula import MarkovChainLevyCopula
-
-    dim, level = case["dim"], case["level"]
-    gk = case["grid"]["kind"]
-    mk = "+".join(case["model"]["margins"]) + ":" + case["model"]["copula"]["kind"]
-    cls = f"d{dim}:{gk}:{mk}"
-    meth = SamplingMethod[case["method"]]
-    product = make_product()
-    model = A.make_copula_model(case["model"])
-    try:
-        grid = A.make_grid(dict(case["grid"], refine=0), model, dim)
-    except A.OutsideAlphabet:
-        sh.count("outside-alphabet-grid")
-        return
-    cp = CouplingProcessLevyCopula(levy_copula_model=model, grid=grid, method=meth)
+    model = D.model(case["model"])
+    grid = A.make_grid(dict(case["grid"], refine=case.get("pre", 0)), model, D.dim)
+    cp = D.coupling(model, grid, SamplingMethod[case["method"]])
+    eps = EPS if case.get("mode") == "maxstep" else None
     product.update(cp.fine_process.process_representation)
-    cp.initialisation(product)
-    pms = [path_manager(cp.fine_process)]
-    for l in range(level):
-        cp.next_level(mc_paths=1, path_managers=pms, product=product)
-        if l + 1 < level:
-            # same reason as exercise_kernel_1d: observe level l on an object that has been used at level l-1
-            sim0 = cp._path_coupling_simulation
-            k0 = getattr(sim0, "_CouplingLevyCopulaSimulation__coupling_state")
-            o0 = list(cp.grid.origin_coordinate)
-            saved = cp._uniform.sample
+    if eps is None:
+        cp.initialisation(product)
+    else:
+        cp.initialisation(product, max_step_epsilon=eps)
+    pms = [path_manager(cp.fine_process)] if case.get("route", "pm") == "pm" else None
+    history = case.get("history", "plain")
+    for l in range(case["level"]):
+        if history == "kernel" and l > 0:
+            exercise_kernel(D, cp)
+        elif history == "second-product" and l == 0:
+            # a first pricing of another product (the other kind of payoff dates, another maturity) on the same object
             try:
-                for u in (0.3, 0.7):
-                    cp._uniform.sample = lambda size=1, u=u: np.array([u])
-                    for idx in itertools.product(*[range(len(ax)) for ax in cp.grid.axes]):
-                        inc = tuple(i - o for i, o in zip(idx, o0))
-                        if any(inc):
-                            try:
-                                k0(inc)
-                            except Exception:  # noqa - zero-rate states may refuse any uniform (see below)
-                                pass
-            finally:
-                cp._uniform.sample = saved
-    sim = cp._path_coupling_simulation
-    fine, grid_f = cp.fine_process, cp.grid
-    model_c = A.make_copula_model(case["model"])
-    grid_c = A.make_grid(dict(case["grid"], refine=level - 1), model_c, dim)
-    chain_c = MarkovChainLevyCopula(levy_copula_model=model_c, grid=grid_c, method=meth)
-    product_c = make_product()
-    product_c.update(chain_c.process_representation)
-    chain_c.initialisation(product_c)
-    rf, rc = rates_nd(fine, grid_f), rates_nd(chain_c, grid_c)
+                other = make_product(maturity=0.75 * product.maturity, stochastic=(case.get("mode") != "jumptimes"))
+                other.update(cp.fine_process.process_representation)
+                cp.initialisation(other)
+                cp.pre_computation(mc_paths=1, product=other)
+                cp.simulate_one_path()
+            except SeamMissing:
+                raise
+            except Exception as e:  # noqa
+                sh.violation(f"C03:{sub}:history-simulation-raises-{type(e).__name__}:level-0:{cls}",
+                             f"history {history}: pricing another product first: {e!r}", None)
+            product.update(cp.fine_process.process_representation)
+            if eps is None:
+                cp.initialisation(product)
+            else:
+                cp.initialisation(product, max_step_epsilon=eps)
+        elif history in ("simulate", "engine"):
+            try:
+                if history == "engine":
+                    cp.reset_one_simulation_cost()
+                cp.pre_computation(mc_paths=nsim, product=product)
+                for n in range(nsim):
+                    if l == 0 or (history == "simulate" and n == 0):
+                        cp.simulate_one_path()  # the fine chain alone (level 0; also allowed on a refined object)
+                    else:
+                        cp.simulate_one_path_with_coupling()
+            except SeamMissing:
+                raise
+            except Exception as e:  # noqa
+                sh.violation(f"C03:{sub}:history-simulation-raises-{type(e).__name__}:level-{'0' if l == 0 else 'ge1'}:{cls}",
+                             f"history {history}: simulating at level {l} before next_level: {e!r}", None)
+            if history == "engine":
+                cp = copy.deepcopy(cp)
+        cp.next_level(mc_paths=1, path_managers=pms, product=product, max_step_epsilon=eps)
+    return cp, pms
+
+
+# ----------------------------------------------------------------------------------------------------------------------
+# kernel
+# ----------------------------------------------------------------------------------------------------------------------
+
+# Tolerance of the telescoping identity for the coarse state y of rate r: TOL_REL * r for the closed-form masses of its own
+# cell and of the <= 3^d fine cells it is made of, plus TOL_CANCEL * lambda for the cancellation inside each mass (a difference
+# of two tail integrals, each bounded by the total intensity lambda) and the 1-ulp resolution of the recovered break points
+# times the rates they multiply. Observed on the unchanged tree over both tiers: at most 2e-16 * lambda.
+TOL_REL = 1e-9
+TOL_CANCEL = 1e-13
+
+
+def verify_kernel(sh, D, cp, spec, level, product_fn, cls, sub, pms=None, maturity=1.0):
+    """Kernel, telescoping, deterministic paths and diffusion coefficients of a coupling standing at `level`.
+    -> dict(chains=..., split=...)"""
+    dim = D.dim
+    grid_f, fine = cp.grid, cp.fine_process
+    chains = {}
+    for lev in range(level + 1):
+        if lev >= level - 1 or pms is not None:
+            chains[lev] = ref_chain(D, spec, lev, product_fn())
+    chain_c, grid_c = chains[level - 1]
+    (rf, neg_f), (rc, neg_c) = D.rates(fine, grid_f), D.rates(chain_c, grid_c)
     lam_f, lam_c = sum(rf.values()), sum(rc.values())
-    orig = list(grid_f.origin_coordinate)
-    kernel = getattr(sim, "_CouplingLevyCopulaSimulation__coupling_state")
-    uni = cp._uniform
+    if min(neg_f, neg_c) < -TOL_CANCEL * lam_f:
+        sh.count("negative-reference-mass-clamped")
+    kernel = D.kernel_fn(cp)
+    uni = D.uniform_of(cp)
     orig_sample = uni.sample
+    coarse_vals = set(rc) | {D.zero}
     acc = {}
     split = 0
-    zero = tuple([0.0] * dim)
+    axes = [[float(v) for v in ax] for ax in grid_f.axes]
+    origin = [int(o) for o in (list(grid_f.origin_coordinate) if dim > 1 else [grid_f.origin_coordinate.value])]
     try:
-        for idx in itertools.product(*[range(len(ax)) for ax in grid_f.axes]):
-            inc = tuple(i - o for i, o in zip(idx, orig))
-            if not any(inc):
-                continue
-            x = tuple(float(grid_f.axes[k][i]) for k, i in enumerate(idx))
-            used = {"n": 0}
+        for inc, x in D.states(grid_f):
+            inc_t = inc if dim > 1 else (inc,)
+            x_t = x if dim > 1 else (x,)
 
             def f(u, inc=inc):
-                def s(size=1):
-                    used["n"] += 1
-                    return np.array([u])
-
-                uni.sample = s
+                uni.sample = lambda size=1: np.full(size, u)
                 try:
-                    return tuple(float(v) for v in np.asarray(kernel(inc)).ravel())
-                except Exception as e:  # noqa - the kernel refuses this uniform (the library raises when the cumulated
+                    return kernel(inc)
+                except SeamMissing:
+                    raise
+                except Exception as e:  # noqa - the kernel refuses this uniform (the n-d code raises when the cumulated
                     # probabilities of the corners stay below u): measured below, tolerated only on a set of rounding size
                     return ("RAISES", type(e).__name__)
 
             pieces, ev, hi = C2.recover_partition(f, 64)
             sh.count("evaluations", ev)
             L = C2.lengths(pieces, hi)
-            undefined = sum(v for k, v in L.items() if k and k[0] == "RAISES")
+            undefined = sum(v for k, v in L.items() if isinstance(k, tuple) and k and k[0] == "RAISES")
+            parity = "".join("o" if i % 2 else "e" for i in inc_t)
             # weighted by the rate of the fine state: a state of zero rate is never sampled and its kernel is irrelevant;
             # a shortfall of rounding size in the cumulated corner probabilities has no measurable mass
             if rf[x] * undefined > 1e-12 * lam_f:
-                parity = "".join("o" if i % 2 else "e" for i in inc)
-                kinds = sorted({k[1] for k in L if k and k[0] == "RAISES"})
-                sh.violation(f"C03:kernelnd:coupling-raises-{'-'.join(kinds)}:{cls}",
+                kinds = sorted({k[1] for k in L if isinstance(k, tuple) and k and k[0] == "RAISES"})
+                sh.violation(f"C03:{sub}:coupling-raises-{'-'.join(kinds)}:{cls}",
                              f"level {level}: increment {inc} (parity {parity}): the kernel raises on a set of uniforms of length {undefined!r}", None)
-            L = {k: v for k, v in L.items() if not (k and k[0] == "RAISES")}
+            L = {k: v for k, v in L.items() if not (isinstance(k, tuple) and k and k[0] == "RAISES")}
             sh.states += 1
             sh.transitions += len(L)
-            odd = [k for k in range(dim) if inc[k] % 2]
-            parity = "all-even" if not odd else ("all-odd" if len(odd) == dim else "mixed-parity")
+            odd = [k for k in range(dim) if inc_t[k] % 2]
+            pclass = "all-even" if not odd else ("all-odd" if len(odd) == dim else "mixed-parity")
+            sh.cls(f"{sub}:parity:{pclass}")
             for y in L:
-                ok = True
+                y_t = y if dim > 1 else (y,)
+                ok = len(y_t) == dim
                 for k in range(dim):
+                    if not ok:
+                        break
+                    i = origin[k] + inc_t[k]
                     if k in odd:
-                        nb = {float(grid_f.axes[k][idx[k] - 1]), float(grid_f.axes[k][idx[k] + 1])}
-                        ok &= y[k] in nb
+                        ok = ok and y_t[k] in (axes[k][i - 1], axes[k][i + 1])
                     else:
-                        ok &= y[k] == x[k]
+                        ok = ok and y_t[k] == x_t[k]
                 if not ok:
-                    sh.violation(f"C03:kernelnd:coarse-state-not-adjacent-or-even-coordinate-moved:{parity}:{cls}",
-                                 f"level {level}: fine state {x} (increment {inc}) -> {y}", None)
-            if not odd and (used["n"] or list(L) != [x]):
-                sh.violation(f"C03:kernelnd:even-increment-not-copied:{cls}", f"level {level}: {inc} -> {L}", None)
+                    what = "even-increment-not-copied" if not odd else "coarse-state-not-adjacent-or-even-coordinate-moved"
+                    sh.violation(f"C03:{sub}:{what}:{pclass}:{cls}", f"level {level}: fine state {x} (increment {inc}) -> {y} (probability {L[y]!r})", None)
+                if y not in coarse_vals:
+                    sh.violation(f"C03:{sub}:coarse-value-not-on-the-coarse-grid:{cls}", f"level {level}: increment {inc} -> {y}", None)
             if len(L) > 1:
                 split += 1
             for y, p in L.items():
                 acc[y] = acc.get(y, 0.0) + rf[x] * p
     finally:
         uni.sample = orig_sample
-    tol = 1e-9 * lam_f + 1e-300
-    worst = 0.0
+    # (i) telescoping
+    worst_rel = worst_abs = 0.0
+    edges = [(axes_c[0], axes_c[-1]) for axes_c in ([float(v) for v in ax] for ax in grid_c.axes)]
     for y, r in rc.items():
         got = acc.get(y, 0.0)
-        worst = max(worst, abs(got - r) / lam_f)
-        if abs(got - r) > tol:
-            onaxis = "on-axis" if any(v == 0.0 for v in y) else "off-axis"
-            sh.violation(f"C03:kernelnd:coarse-rate-not-reproduced:{onaxis}:{cls}",
+        err = abs(got - r)
+        tol = TOL_REL * r + TOL_CANCEL * lam_f + 1e-300
+        if r > 0:
+            worst_rel = max(worst_rel, (err - TOL_CANCEL * lam_f) / r)
+        worst_abs = max(worst_abs, err / lam_f)
+        if not err <= tol:
+            y_t = y if dim > 1 else (y,)
+            if dim == 1:
+                pos = "boundary-state" if y in edges[0] else "interior-state"
+            else:
+                pos = "on-axis" if any(v == 0.0 for v in y_t) else "off-axis"
+            sh.violation(f"C03:{sub}:coarse-rate-not-reproduced:{pos}:{cls}",
                          f"level {level}: coarse state {y}: sum_x rate(x) P(x->y) = {got!r} but the level-{level - 1} chain has rate {r!r} "
-                         f"(relative to lambda: {abs(got - r) / lam_f:.3g})", {"lam_f": lam_f, "lam_c": lam_c})
-    nj = acc.get(zero, 0.0)
-    if abs(nj - (lam_f - lam_c)) > tol:
-        sh.violation(f"C03:kernelnd:no-coarse-jump-mass-differs:{cls}",
-                     f"level {level}: mass sent to the coarse origin {nj!r}, lambda_l - lambda_(l-1) = {lam_f - lam_c!r}", None)
-    # (iii)
-    times = np.array([0.0, 0.3, 1.0])
-    dp = np.asarray(pms[-1].deterministic_path(times), dtype=float)
-    want_c = np.asarray(chain_c.deterministic_path(times), dtype=float)
-    scale = max(1.0, float(np.max(np.abs(want_c))))
-    if dp.shape[0] != 2 or dp[1].shape != want_c.shape or not np.allclose(dp[1], want_c, rtol=1e-11, atol=1e-12 * scale):
-        sh.violation(f"C03:kernelnd:coarse-deterministic-path-not-level-minus-one:{cls}",
-                     f"level {level}: coarse {dp[1].tolist() if dp.shape[0] == 2 else dp.tolist()} vs level-{level - 1} chain {want_c.tolist()}", None)
-    m2h = np.asarray(cp._diffusion_matrix_2h, dtype=float)
-    mc = np.asarray(chain_c._path_simulation.diffusion_matrix, dtype=float)
-    if m2h.shape != mc.shape or not np.allclose(m2h, mc, rtol=1e-9, atol=1e-14):
-        sh.violation(f"C03:kernelnd:coarse-diffusion-matrix-not-level-minus-one:{cls}", f"level {level}: {m2h.tolist()} vs {mc.tolist()}", None)
-    sh.outcome((cls, level, len(rf), split, round(worst, 12)))
-    if split:
-        sh.nontriv()
-    if dim == 2 and gk == "fixed" and case["grid"]["n"] == 3 and level == 1 and mk.startswith("hem+vg:clayton"):
-        sh.sample({"sub": "kernelnd", "case": case, "fine_states": len(rf), "coarse_states": len(rc), "worst_relative_defect": worst})
+                         f"(relative to the rate {err / r if r else math.inf:.3g}, to lambda {err / lam_f:.3g})", {"lam_f": lam_f, "lam_c": lam_c})
+    nj = acc.get(D.zero, 0.0)
+    if not abs(nj - (lam_f - lam_c)) <= TOL_REL * abs(lam_f - lam_c) + 50 * TOL_CANCEL * lam_f:
+        sh.violation(f"C03:{sub}:no-coarse-jump-mass-differs:{cls}",
+                     f"level {level}: mass sent to the coarse origin {nj!r} but lambda_l - lambda_(l-1) = {lam_f - lam_c!r}", None)
+    if not core.close(float(fine.intensity_of_jumps), lam_f, rtol=1e-9) or not core.close(float(chain_c.intensity_of_jumps), lam_c, rtol=1e-9):
+        sh.count("oracle-rates-differ-from-intensity")  # C01's subject; the rates used above are the reference-cell masses
+        sh.note(f"{sub} {cls}: intensity_of_jumps differs from the sum of the reference-cell masses (C01)")
+    if DEBUG:
+        print(f"DEBUG {sub} {cls} L{level}: states {len(rf)} worst_rel(after cancel) {worst_rel:.3g} worst_abs/lam {worst_abs:.3g} lam {lam_f:.6g}")
+    # (iii) deterministic paths of every level's path manager, re-read now
+    times = np.array([0.0, 0.3, float(maturity)])
+    if pms is not None:
+        if len(pms) != level + 1:
+            sh.violation(f"C03:{sub}:path-managers-not-one-per-level:{cls}", f"level {level}: {len(pms)} path managers", None)
+        for k in range(1, min(level, len(pms) - 1) + 1):
+            dp = np.asarray(pms[k].deterministic_path(times), dtype=float)
+            want_f = np.asarray(chains[k][0].deterministic_path(times), dtype=float)
+            want_c = np.asarray(chains[k - 1][0].deterministic_path(times), dtype=float)
+            scale = max(1.0, float(np.max(np.abs(want_c))))
+            which = "last-level" if k == level else "earlier-level-re-read"
+            if dp.shape[0] != 2 or np.shape(dp[1]) != want_c.shape or not np.allclose(dp[1], want_c, rtol=1e-11, atol=1e-12 * scale):
+                sh.violation(f"C03:{sub}:coarse-deterministic-path-not-level-minus-one:{which}:{cls}",
+                             f"level {level}, path manager {k}, times {times.tolist()}: coarse {dp[1].tolist() if dp.shape[0] == 2 else dp.tolist()} "
+                             f"vs level-{k - 1} chain {want_c.tolist()}", None)
+            if dp.shape[0] == 2 and (np.shape(dp[0]) != want_f.shape or not np.allclose(dp[0], want_f, rtol=1e-11, atol=1e-12 * scale)):
+                sh.violation(f"C03:{sub}:fine-deterministic-path-differs:{which}:{cls}",
+                             f"level {level}, path manager {k}: {dp[0].tolist()} vs level-{k} chain {want_f.tolist()}", None)
+            sh.count("evaluations")
+    # diffusion coefficients / matrices
+    cf, cc = D.coefficients(cp)
+    want_cf, want_cc = D.chain_coefficient(chains[level][0]), D.chain_coefficient(chain_c)
+    name = "coefficient" if dim == 1 else "matrix"
+    if cc.shape != want_cc.shape or not np.allclose(cc, want_cc, rtol=1e-9, atol=1e-14):
+        sh.violation(f"C03:{sub}:coarse-diffusion-{name}-not-level-minus-one:{cls}",
+                     f"level {level}: {cc.tolist()} vs level-{level - 1} chain {want_cc.tolist()}", None)
+    if cf.shape != want_cf.shape or not np.allclose(cf, want_cf, rtol=1e-9, atol=1e-14):
+        sh.violation(f"C03:{sub}:fine-diffusion-{name}-differs:{cls}", f"level {level}: {cf.tolist()} vs level-{level} chain {want_cf.tolist()}", None)
+    if not np.allclose(want_cf, want_cc, rtol=1e-6, atol=0.0):
+        sh.cls(f"{sub}:level-dependent-diffusion")
+    sh.outcome((cls, level, len(rf), split, round(lam_f, 9)))
+    return {"chains": chains, "split": split, "rf": rf, "rc": rc, "acc": acc, "worst": worst_abs, "coefs": (want_cf, want_cc)}
 
 
-# ----------------------------------------------------------------------------------------------------------------------
-
-def _assembly1d(sh, case):
-    """Scripted jump counts x sampler uniforms x coupling uniforms through simulate_one_path_with_coupling."""
-    import numpy.random as npr
-
-    import rpylib.distribution.univariate.uniform as U
-    from rpylib.distribution.variate import table as T
-
-    gk, mk, meth, mode = case["grid"]["kind"], case["model"]["family"], case["method"], case["mode"]
-    cls = f"{meth.lower()}:{mode}"
-    product = make_product(stochastic=(mode == "jumptimes"))
-    saved = (U.npr.uniform, npr.poisson, npr.normal, npr.random_sample, npr.choice, T.random.getrandbits)
-    script = {"uniform": deque(), "bits": deque()}
-
-    def s_uniform(low=0.0, high=1.0, size=None):
-        n = 1 if size is None else int(np.prod(size))
-        vals = [script["uniform"].popleft() for _ in range(n)]
-        return np.array(vals, dtype=float) * (high - low) + low
-
-    try:
-        U.npr.uniform = s_uniform
-        npr.choice = lambda a, *args, **kw: list(a)[0]
-        npr.normal = lambda loc=0.0, scale=1.0, size=None: np.full(size if size is not None else 1, 0.25)
+def _kernel(sh, case):
+    D = dim_of(case)
+    level = case["level"]
+    gk = case["grid"]["kind"]
+    if D.dim == 1:
+        mk = case["model"]["family"] + ("[reinit]" if case["model"].get("via") == "reinit" else "")
+        cls = f"{gk}:{mk}"
+    else:
+        mk = "+".join(case["model"]["margins"]) + ":" + case["model"]["copula"]["kind"]
+        cls = f"d{D.dim}:{gk}:{mk}"
+    sub = case["sub"]
+    route = case.get("route", "pm")
+    if route != "pm":
+        cls += ":route-none"
+    product = product_of(case)
+    maturity = product.maturity
+    with nd_diffusion_stub(case.get("stub")), scripted_env() as st:
         try:
-            cp, pms, model = build_coupling_1d(case, product)
+            cp, pms = take_to_level(sh, D, case, product, cls, sub)
         except A.OutsideAlphabet:
             sh.count("outside-alphabet-grid")
             return
-        sim = cp._path_coupling_simulation
-        fine = cp.fine_process
-        grid = cp.grid
-        axis = grid.axes[0]
-        o = grid.origin_coordinate.value
-        # the fine sampler's map and the kernel, recovered once on fresh twins (so that this object's caches are untouched)
-        law_case = {"dim": 1, "model": case["model"], "grid": dict(case["grid"], refine=case["level"]), "method": meth}
-        for counts in ([0], [1], [2], [3]):
-            n = counts[0]
-            # sampler uniforms: pick u's that select given fine states; coupling uniforms 0.2 / 0.8 alternately
-            us = [0.15, 0.55, 0.93][:n]
-            cus = [0.2, 0.8, 0.5][:n]
-            # reference: fine increments from a twin sampler
-            twin, _ = C2.build_process(law_case)
-            if meth == "TABLE":
-                bits = [min(int(u * 4294967296.0), 4294967295) for u in us]
-                incs = []
-                for b in bits:
-                    T.random.getrandbits = lambda nb, b=b: b
-                    incs.append(C2.as_inc(twin.sampling.sample(1)[0])[0])
-            else:
-                ftwin, _ = C2.single_entry(twin, law_case)
-                incs = [ftwin(u)[0] for u in us]
-            # coarse images through the kernel with scripted coupling uniforms
-            coarse_vals, fine_vals = [], []
-            cf = cc = 0.0
-            cu_used = []
-            ci = 0
-            for inc in incs:
-                cf += float(axis[o + inc])
-                if inc % 2 == 0:
-                    cc += float(axis[o + inc])
-                else:
-                    u = cus[ci]
-                    ci += 1
-                    cu_used.append(u)
-                    script["uniform"].clear()
-                    script["uniform"].append(u)
-                    cc += float(sim.coupling_state(inc))
-                fine_vals.append(cf)
-                coarse_vals.append(cc)
-            # now the real assembled path
-            script["uniform"].clear()
-            if mode == "fixed":
-                fine._path_simulation._poisson_rv.clear()
-                fine._path_simulation._poisson_rv.append([n])
-                fine._path_simulation._brownian_increments.clear()
-                fine._path_simulation._brownian_increments.append(np.array([0.25]))
-            else:
-                npr.poisson = lambda lam=1.0, size=None: np.array([n]) if size is not None else n
-                import rpylib.distribution.univariate.poisson as P  # noqa
-
-                npr.random_sample = lambda size=None: np.array([0.2, 0.5, 0.7][: (size if size is not None else 1)])
-            if meth == "TABLE":
-                bits_q = deque(bits)
-                T.random.getrandbits = lambda nb: bits_q.popleft()
-            else:
-                script["uniform"].extend(us)
-            script["uniform"].extend(cu_used)
-            # the fine sampler draws its n uniforms in one batch first, then the coupling draws one per odd increment
-            try:
-                if mode == "jumptimes":
-                    orig_nb = fine.nb_jump_dt
-                    fine.nb_jump_dt = lambda dt: n
-                path = cp.simulate_one_path_with_coupling()
-            except Exception as e:  # noqa
-                sh.violation(f"C03:assembly1d:simulate-raises-{type(e).__name__}:{cls}:jumps={min(n, 2)}",
-                             f"{gk}/{mk} level {case['level']}: {n} jumps: {e!r}", None)
-                continue
-            finally:
-                if mode == "jumptimes":
-                    fine.nb_jump_dt = orig_nb
-            sh.count("evaluations")
-            jp = np.asarray(path.jump_path, dtype=float)
-            got_f, got_c = float(jp[0, -1]), float(jp[1, -1])
-            want_f = fine_vals[-1] if fine_vals else 0.0
-            want_c = coarse_vals[-1] if coarse_vals else 0.0
-            if not (core.close(got_f, want_f, rtol=1e-12, atol=1e-14) and core.close(got_c, want_c, rtol=1e-12, atol=1e-14)):
-                sh.violation(f"C03:assembly1d:coupled-pair-differs-from-kernel-images:{cls}",
-                             f"{gk}/{mk}: increments {incs}: terminal jump values fine {got_f} / coarse {got_c}, reference {want_f} / {want_c}",
-                             {"jump_path": jp.tolist()})
-            sh.outcome((cls, n, tuple(incs)))
+        res = verify_kernel(sh, D, cp, spec_of(case), level, lambda: product_of(case), cls, sub, pms=pms, maturity=maturity)
+        # (iv) a few scripted paths of this very object, kernel images from the object itself
+        refs = {"coefs": res["coefs"]}
+        verify_paths(sh, D, cp, cp, product, refs, cls, sub, n_paths=3, st=st, per_jump_times=case.get("mode", "fixed") != "fixed")
+    if res["split"]:
         sh.nontriv()
-    finally:
-        U.npr.uniform, npr.poisson, npr.normal, npr.random_sample, npr.choice, T.random.getrandbits = saved
+    sh.cls(f"{sub}:history:{case.get('history', 'plain')}")
+    sh.cls(f"{sub}:route:{route}")
+    sh.cls(f"{sub}:mode:{case.get('mode', 'fixed')}")
+    if D.dim == 1 and gk == "fixed" and case["model"] == HEM and level == 1 and route == "pm":
+        sh.sample({"sub": sub, "case": case, "fine_rates": res["rf"], "coarse_rates": res["rc"], "telescoped": res["acc"]})
+    if D.dim == 2 and case["grid"] == G_F3 and level == 1 and case["model"] == CM_HV:
+        sh.sample({"sub": sub, "case": case, "fine_states": len(res["rf"]), "coarse_states": len(res["rc"]),
+                   "worst_defect_relative_to_lambda": res["worst"]})
+
+
+# ----------------------------------------------------------------------------------------------------------------------
+# paths
+# ----------------------------------------------------------------------------------------------------------------------
+
+U_PATH = (0.2, 0.8, 0.5, 0.03, 0.97, 0.35)
+
+
+def verify_paths(sh, D, cp, twin, product, refs, cls, sub, n_paths, st, per_jump_times):
+    """Simulate n_paths coupled paths of `cp` (random sources scripted by the enclosing scripted_env) and compare each with the
+    fine chain's own output and the kernel images of `twin` (which may be cp itself)."""
+    dim = D.dim
+    fine = cp.fine_process
+    ps = _attr(fine, "_path_simulation")
+    orig_smc = _attr(ps, "simulate_markov_chain")
+    uni = D.uniform_of(cp)
+    orig_sample = uni.sample
+    twin_kernel = D.kernel_fn(twin)
+    twin_uni = D.uniform_of(twin)
+    cache = {}
+
+    def K(inc, u):
+        key = (tuple(inc) if dim > 1 else int(inc), u)
+        if key not in cache:
+            saved = twin_uni.sample
+            twin_uni.sample = lambda size=1: np.full(size, u)
+            try:
+                cache[key] = np.atleast_1d(np.asarray(twin_kernel(inc), dtype=float))
+            finally:
+                twin_uni.sample = saved
+        return cache[key]
+
+    want_cf, want_cc = refs["coefs"]
+    ratio = want_cc @ np.linalg.pinv(want_cf)  # coarse diffusion = ratio @ fine diffusion when driven by the same increments
+    maturity = float(product.maturity)
+    try:
+        cp.reset_one_simulation_cost()
+        cp.pre_computation(mc_paths=n_paths, product=product)
+    except SeamMissing:
+        raise
+    except Exception as e:  # noqa
+        sh.violation(f"C03:{sub}:pre-computation-raises-{type(e).__name__}:{cls}", f"{e!r}", None)
+        return
+    seen_odd = False
+    for p in range(n_paths):
+        u = U_PATH[p % len(U_PATH)]
+        rec = {}
+        drawn = {"n": 0}
+
+        def spy():
+            mc = orig_smc()
+            rec["mc"] = (copy.deepcopy(_attr(mc, "times")), copy.deepcopy(_attr(mc, "values")), copy.deepcopy(_attr(mc, "states_increments")))
+            return mc
+
+        def s_uniform(size=1, u=u):
+            drawn["n"] += int(np.prod(size))
+            return np.full(size, u)
+
+        try:
+            ps.simulate_markov_chain = spy
+            uni.sample = s_uniform
+            try:
+                path = cp.simulate_one_path_with_coupling()
+            finally:
+                uni.sample = orig_sample
+                try:
+                    del ps.simulate_markov_chain
+                except AttributeError:
+                    ps.simulate_markov_chain = orig_smc
+        except SeamMissing:
+            raise
+        except Exception as e:  # noqa
+            nj = "unknown"
+            if "mc" in rec:
+                nmax = max([len(s) for s in rec["mc"][2]] + [0])
+                nj = "0" if nmax == 0 else ("1" if nmax == 1 else "ge2")
+            sh.violation(f"C03:{sub}:simulate-raises-{type(e).__name__}:{cls}:jumps-per-interval={nj}",
+                         f"path {p}: simulate_one_path_with_coupling: {e!r}", {"fine_chain": core.jsonable(rec.get("mc"))})
+            continue
+        if "mc" not in rec:
+            raise SeamMissing("simulate_markov_chain of the fine chain is not called by the coupling")
+        sh.count("evaluations")
+        times_mc, values_mc, incs_mc = rec["mc"]
+        T = np.asarray(path.jump_times, dtype=float).ravel()
+        J = np.asarray(path.jump_path, dtype=float)
+        Dp = np.asarray(path.diffusion_path, dtype=float)
+        if J.shape[0] != 2 or J.shape[-1] != T.size or Dp.shape != J.shape or (dim > 1 and J.shape[1] != dim):
+            sh.violation(f"C03:{sub}:coupled-path-shape:{cls}", f"times {T.shape}, jump path {J.shape}, diffusion path {Dp.shape}", None)
+            continue
+        J = J.reshape(2, dim, T.size)
+        Dp = Dp.reshape(2, dim, T.size)
+        # reference events (time, fine running value, coarse running value), in time order
+        n_int = len(incs_mc)
+        if len(np.atleast_1d(times_mc)) != (sum(len(s) for s in incs_mc) if per_jump_times else n_int):
+            raise SeamMissing("MarkovChain.times is neither one time per jump (jump-time classes) nor one per interval (fixed dates)")
+        events = []
+        off_f, off_c = np.zeros(dim), np.zeros(dim)
+        tpos = 0
+        word = []
+        odd_jumps = 0
+        for i in range(n_int):
+            incs = [tuple(int(v) for v in np.atleast_1d(x)) for x in incs_mc[i]]
+            vals = np.asarray(values_mc[i], dtype=float).reshape(len(incs), dim) if len(incs) else np.zeros((0, dim))
+            run_c = np.zeros(dim)
+            even_seen = [False] * dim
+            for jn, inc in enumerate(incs):
+                if any(v % 2 for v in inc):
+                    odd_jumps += 1
+                    seen_odd = True
+                if any(even_seen[k] and inc[k] % 2 for k in range(dim)):
+                    sh.cls(f"{sub}:slice:later-odd-after-earlier-even-on-the-same-coordinate")
+                for k in range(dim):
+                    even_seen[k] = even_seen[k] or inc[k] % 2 == 0
+                run_c = run_c + K(inc if dim > 1 else inc[0], u)
+                if per_jump_times:
+                    events.append((float(np.atleast_1d(times_mc)[tpos]), off_f + vals[jn], off_c + run_c))
+                    tpos += 1
+            if len(incs):
+                off_f = off_f + vals[-1]
+                off_c = off_c + run_c
+            if len(incs) >= 2:
+                sh.cls(f"{sub}:slice:two-or-more-jumps")
+            word.append(len(incs))
+            if not per_jump_times:
+                events.append((float(np.atleast_1d(times_mc)[i]), off_f.copy(), off_c.copy()))
+        # compare at every time of the path's own grid
+        ev_t = np.array([e[0] for e in events], dtype=float)
+        bad = None
+        if T.size < 2 or T[0] != 0.0 or not core.close(T[-1], maturity, rtol=1e-12):
+            bad = ("time-grid-ends", f"times {T.tolist()[:6]}... maturity {maturity}")
+        elif per_jump_times and not all(np.any(np.abs(T - t) <= 1e-12 * max(1.0, maturity)) for t in ev_t):
+            bad = ("jump-time-missing-from-the-path", f"jump times {ev_t.tolist()} path times {T.tolist()}")
+        if bad is None:
+            for n, t in enumerate(T):
+                k = int(np.searchsorted(ev_t, t + 1e-12 * max(1.0, maturity), side="right"))
+                wf, wc = (events[k - 1][1], events[k - 1][2]) if k else (np.zeros(dim), np.zeros(dim))
+                sc = max(1.0, float(np.max(np.abs(wf))), float(np.max(np.abs(wc))))
+                if not np.allclose(J[0, :, n], wf, rtol=0, atol=1e-12 * sc):
+                    bad = ("fine-component-differs-from-the-fine-chain", f"time index {n} (t={t}): fine {J[0, :, n].tolist()}, fine chain {wf.tolist()}")
+                    break
+                if not np.allclose(J[1, :, n], wc, rtol=0, atol=1e-12 * sc):
+                    pos = "terminal" if n == T.size - 1 else "intermediate"
+                    bad = (f"coarse-component-differs-from-kernel-images:{pos}-time",
+                           f"time index {n} (t={t}): coarse {J[1, :, n].tolist()}, sum of the kernel images (u={u}) {wc.tolist()}")
+                    break
+        if bad is not None:
+            sh.violation(f"C03:{sub}:coupled-pair:{bad[0]}:{cls}", f"path {p}, jumps per interval {word}: {bad[1]}",
+                         {"increments": core.jsonable(incs_mc), "times": T.tolist(), "jump_path": J.tolist(), "u": u})
+        if drawn["n"] < odd_jumps:
+            sh.violation(f"C03:{sub}:coupled-pair:fewer-coupling-uniforms-than-projected-jumps:{cls}",
+                         f"path {p}: {odd_jumps} jumps with an odd coordinate, {drawn['n']} coupling uniforms drawn", None)
+        # same Brownian increments
+        exp_c = np.einsum("ij,jn->in", ratio, Dp[0])
+        sc = max(float(np.max(np.abs(Dp))), 1e-300)
+        if np.any(Dp[:, :, 0] != 0.0) or not np.allclose(Dp[1], exp_c, rtol=0, atol=1e-11 * sc):
+            n = int(np.argmax(np.max(np.abs(Dp[1] - exp_c), axis=0)))
+            sh.violation(f"C03:{sub}:diffusion-components-not-driven-by-the-same-increments:{cls}",
+                         f"path {p}, time index {n}: coarse diffusion {Dp[1, :, n].tolist()} but (level l-1 coefficient / level l coefficient) x fine "
+                         f"diffusion = {exp_c[:, n].tolist()} (fine {Dp[0, :, n].tolist()})", {"ratio": ratio.tolist()})
+        if np.any(want_cf != 0.0):
+            if np.all(Dp[0] == 0.0):
+                sh.count("fine-diffusion-identically-zero-with-positive-coefficient")
+            else:
+                sh.cls(f"{sub}:diffusion:non-zero")
+        sh.outcome((sub, cls, tuple(word), round(float(np.sum(J[1, :, -1])), 12), round(float(np.sum(Dp[1, :, -1])), 12)))
+    return seen_odd
+
+
+def _assembly(sh, case):
+    D = dim_of(case)
+    level = case["level"]
+    gk, meth, mode = case["grid"]["kind"], case["method"], case["mode"]
+    route = case.get("route", "pm")
+    sub = f"assembly{D.dim}d"
+    cls = f"{meth.lower()}:{mode}" + (":route-none" if route != "pm" else "")
+    product = product_of(case)
+    with nd_diffusion_stub(case.get("stub")), scripted_env() as st:
+        try:
+            cp, pms = take_to_level(sh, D, case, product, cls, sub)
+        except A.OutsideAlphabet:
+            sh.count("outside-alphabet-grid")
+            return
+        twin, _ = take_to_level(sh, D, dict(case, history="plain", model=direct(case["model"])), product_of(case), cls, sub)
+        spec = spec_of(case)
+        refs = {"coefs": (D.chain_coefficient(ref_chain(D, spec, level, product_of(case))[0]),
+                          D.chain_coefficient(ref_chain(D, spec, level - 1, product_of(case))[0]))}
+        seen_odd = verify_paths(sh, D, cp, twin, product, refs, cls, sub, n_paths=6, st=st, per_jump_times=mode != "fixed")
+    if seen_odd:
+        sh.nontriv()
+    sh.cls(f"{sub}:history:{case.get('history', 'plain')}")
+    sh.cls(f"{sub}:route:{route}")
+    sh.cls(f"{sub}:product:{case['product']['underlying']}-{case['product']['maturity']}")
+
+
+# ----------------------------------------------------------------------------------------------------------------------
+# SDE coupling
+# ----------------------------------------------------------------------------------------------------------------------
+
+def _sde_model(case):
+    from rpylib.model.levydrivensde.levylibormodel import LevyLiborModel
+    from rpylib.model.utils import create_levy_forward_market_model, create_levy_forward_market_model_copula
+
+    if case["dim"] == 1:
+        drv = A.make_model(case["driver"])
+        if case["sde"] == "libor":
+            sigma = np.array([[0.50], [0.80], [1.00], [1.25], [1.50]])
+            return LevyLiborModel(libor_rates=[0.02] * 5, tenors=[5, 6, 7, 8, 9, 10], sigma=sigma, driver=drv)
+        return create_levy_forward_market_model(driver=drv)
+    return create_levy_forward_market_model_copula(driver=[A.make_model(A.MARGINS[n]) for n in case["driver"]])
 
 
 def _sde(sh, case):
     from rpylib.distribution.sampling import SamplingMethod
-    from rpylib.model.utils import create_levy_forward_market_model
-    from rpylib.process.coupling.couplingsde import CouplingSDE
-    from rpylib.process.markovchain.markovchain import MarkovChainProcess
     from rpylib.montecarlo.path import MLMCPath
+    from rpylib.process.coupling.couplingsde import CouplingSDE
 
-    level = case["level"]
-    drv = A.make_model(case["driver"])
-    model = create_levy_forward_market_model(driver=drv)
-    grid = A.make_grid(dict(case["grid"], refine=0), drv, 1)
-    cp = CouplingSDE(model=model, grid=grid, method=SamplingMethod.INVERSION)
-    product = make_product(maturity=5.0)
-    cp.initialisation(product)
-    pms = [MLMCPath(deterministic_path=cp.fine_process.deterministic_path, activate_spot_underlying=False)]
-    for _ in range(level):
-        cp.next_level(1, pms, product)
-    cls = case["driver"]["family"]
-    for which, lev in (("mc_drift_2h", level - 1), ("mc_drift_h", level)):
-        d2 = A.make_model(case["driver"])
-        g2 = A.make_grid(dict(case["grid"], refine=lev), d2, 1)
-        ch = MarkovChainProcess(model=d2, method=SamplingMethod.INVERSION, grid=g2)
-        p2 = make_product(maturity=5.0)
-        ch.initialisation(p2, max_step_epsilon=0.1)
-        want = float(np.asarray(ch.process_drift()).ravel()[0])
-        got = float(np.asarray(getattr(cp, which)).ravel()[0])
-        sh.count("evaluations")
-        if not core.close(got, want, rtol=1e-11, atol=1e-14):
-            sh.violation(f"C03:sde:{which}-is-not-the-drift-of-level-{'l-1' if which.endswith('2h') else 'l'}:{cls}",
-                         f"level {level}: {which} = {got!r} but the driver chain refined {lev} times has drift {want!r}", None)
-        sh.outcome((cls, level, which, round(got, 12)))
+    level, dim = case["level"], case["dim"]
+    D = dim_of(case)
+    history = case.get("history", "plain")
+    drv_name = case["driver"]["family"] + ("[reinit]" if case["driver"].get("via") else "") if dim == 1 else "+".join(case["driver"])
+    cls = f"{case['sde']}:d{dim}:{drv_name}"
+    sub = "sde"
+    meth = SamplingMethod[case["method"]]
+    maturity = 5.0
+    with nd_diffusion_stub(case.get("stub")), scripted_env() as st:
+        model = _sde_model(case)
+        grid = A.make_grid(dict(case["grid"], refine=0), model.driver, dim)
+        cp = CouplingSDE(model=model, grid=grid, method=meth)
+        product = make_product(maturity=maturity)
+        product.update(cp.fine_process.process_representation)
+        cp.initialisation(product)
+        pms = [MLMCPath(deterministic_path=cp.fine_process.deterministic_path, activate_spot_underlying=False)]
+        for l in range(level):
+            if history != "plain":
+                try:
+                    cp.reset_one_simulation_cost()
+                    cp.pre_computation(mc_paths=1, product=product)
+                    if l == 0:
+                        cp.simulate_one_path()
+                    else:
+                        cp.simulate_one_path_with_coupling()
+                except SeamMissing:
+                    raise
+                except Exception as e:  # noqa
+                    sh.violation(f"C03:sde:history-simulation-raises-{type(e).__name__}:level-{'0' if l == 0 else 'ge1'}:{cls}",
+                                 f"history {history}: simulating at level {l} before next_level: {e!r}", None)
+                if history == "engine":
+                    cp = copy.deepcopy(cp)
+            cp.next_level(1, pms, product)
+        # drifts of the two components
+        if dim == 1:
+            spec = {"model": case["driver"], "grid": case["grid"], "method": case["method"], "dim": 1}
+        else:
+            spec = {"model": {"margins": case["driver"], "copula": {"kind": "clayton", "theta": 0.7, "eta": 0.3}}, "grid": case["grid"],
+                    "method": case["method"], "dim": dim}
+        for which, lev in (("mc_drift_2h", level - 1), ("mc_drift_h", level)):
+            ch, _ = ref_chain(D, spec, lev, make_product(maturity=maturity))
+            want = np.asarray(ch.process_drift(), dtype=float).ravel()
+            got = np.asarray(getattr(cp, which), dtype=float).ravel()
+            sh.count("evaluations")
+            if got.shape != want.shape or not np.allclose(got, want, rtol=1e-11, atol=1e-14):
+                sh.violation(f"C03:sde:{which}-is-not-the-drift-of-level-{'l-1' if which.endswith('2h') else 'l'}:{cls}",
+                             f"level {level}: {which} = {got.tolist()} but the driver chain refined {lev} times has drift {want.tolist()}", None)
+            sh.outcome((cls, level, which, tuple(round(float(v), 12) for v in got)))
+        # the driver coupling reached through CouplingSDE.next_level: next_level(path_managers=None, max_step_epsilon=epsilon)
+        drv_cp = _attr(cp, "driver_coupling_process")
+        res = verify_kernel(sh, D, drv_cp, spec, level, lambda: make_product(maturity=maturity), cls, "sde-driver", pms=None, maturity=maturity)
+        verify_paths(sh, D, drv_cp, drv_cp, product, {"coefs": res["coefs"]}, cls, "sde-driver", n_paths=3, st=st, per_jump_times=True)
+    sh.cls(f"sde:history:{history}")
     sh.nontriv()
+
+
+def post(total, tier):
+    """Coverage floors of the sweep: classes the sub-checks exist for must have been reached (otherwise the run is marked as not
+    exhaustive - never an alarm)."""
+    need = [
+        "assembly2d:slice:later-odd-after-earlier-even-on-the-same-coordinate",
+        "assembly2d:slice:two-or-more-jumps",
+        "assembly1d:slice:two-or-more-jumps",
+        "kernelnd:parity:mixed-parity",
+        "kernelnd:level-dependent-diffusion",
+        "kernel1d:level-dependent-diffusion",
+        "sde-driver:level-dependent-diffusion",
+        "assembly1d:diffusion:non-zero",
+        "assembly2d:diffusion:non-zero",
+    ] + [f"{s}:history:{h}" for s in ("kernel1d", "kernelnd", "assembly1d", "assembly2d") for h in HISTORIES]
+    for n in need:
+        if n not in total.classes:
+            total.cap(f"coverage floor not reached: {n}")
+    for n in ("outside-alphabet-grid", "fine-diffusion-identically-zero-with-positive-coefficient", "seam-missing"):
+        if total.counters.get(n):
+            total.cap(f"{n}: {total.counters[n]} case(s)")
